@@ -57,20 +57,23 @@ def register(reg):
     WIN0 = "all(implies(I0 - D <= q and q <= I0 + D and not isnan(XS[q]), lo <= XS[q] and XS[q] <= hi) for q in range(0, %s))" % n
     POSW = "all(implies(%s and kernel[jj] > 0 and jj < %%s, norm > 0) for jj in range(0, N))" % v("i", "jj")
     reg.add(Spec(O + "Filter.execute", dict(self="Filter", track="Track", af_input="str", af_output="str", kernel="list[real]", boundary="bool"),
-                 "list[float]", ghost=dict(I0="int", lo="real", hi="real", XS="list[float]"),
+                 "list[float]", ghost=dict(I0="int", lo="real", hi="real", XS="list[float]", JW="list[int]"),
                  region=("N = len(kernel)", None),
                  requires=["twf(track)", n + " >= 1", "not reserved(af_input)", "hasname(track, af_input)", "not reserved(af_output)",
                            "len(kernel) >= 1", "len(kernel) <= " + n, "all(kernel[j] >= 0 for j in range(0, len(kernel)))",
                            # XS is the input signal (ghost copy of the input column)
                            "len(XS) == " + n + " and all(same(XS[q], col(track, af_input, q)) for q in range(0, " + n + "))",
                            # every window holds a usable sample with positive weight (otherwise the code divides by zero)
-                           "all(any(%s and kernel[jj] > 0 for jj in range(0, len(kernel))) for i in range(0, %s))"
-                           % ((VALID % ("i", "jj", "i", "jj", "i", "jj")).replace("D", "(len(kernel) // 2)"), n),
+                           # (the witness sample of window i is the ghost JW[i]: a Skolem function for "there is a usable sample")
+                           "len(JW) == %s and all(0 <= JW[i] and JW[i] < len(kernel) and %s and kernel[JW[i]] > 0 for i in range(0, %s))"
+                           % (n, (VALID % ("i", "JW[i]", "i", "JW[i]", "i", "JW[i]")).replace("D", "(len(kernel) // 2)"), n),
                            "0 <= I0 and I0 < " + n, "lo <= hi", WIN0.replace("D", "(len(kernel) // 2)")],
                  raises={"KernelError": "len(kernel) % 2 == 0"},
                  modifies=["Obs.features", "Track." + DICO],
                  locals=dict(temp="list[float]"),
-                 at={"for j in range(N):": [("window-odd", "N == 2 * D + 1"), ("norm-positive", "norm > 0")]},
+                 at={"for j in range(N):": [("window-odd", "N == 2 * D + 1 and D == len(kernel) // 2 and N == len(kernel)"),
+                                            ("usable-sample-in-the-window", "0 <= JW[i] and JW[i] < N and %s and kernel[JW[i]] > 0" % v("i", "JW[i]")),
+                                            ("norm-positive", "norm > 0")]},
                  loops={"2": LoopSpec(inv=[
                             "twf(track)", "hasname(track, af_input)", "len(temp) == " + n, "N == len(kernel) and N % 2 == 1 and D == N // 2",
                             "all(same(XS[q], col(track, af_input, q)) for q in range(0, " + n + "))",
